@@ -421,6 +421,29 @@ def run(ctx):
                              "drms_milli": int(min(2 ** 30, round(float(np.nanmax(np.abs(r - r1) / noise)) * 1000)))})
             shutil.rmtree(res["dir"], ignore_errors=True)
     shutil.rmtree(ref["dir"], ignore_errors=True)
+    # the same with boxes that are not square (first element larger, and second element larger) on a background that
+    # rises by 0.4 sigma per row (with the unchanged code each stripe boundary shifts the background by about half a
+    # row, i.e. 0.2 sigma here; backgrounds that change by more than a sigma per pixel are outside what "a small
+    # fraction of the local noise" can mean for a grid-based estimator - assumption listed in the evidence)
+    for tag, box in (("tall", [24, 8]), ("wide", [8, 24])):
+        b2 = dict(base, box=box, imgseed=22, gradient=0.4 * base["rows"])     # 0.4 sigma per row
+        ref = run_bane(ctx, "sens%s1" % tag, dict(b2, nslice=1, cores=1))
+        runs.append(run_record("sens-%s/nslice=1" % tag, b2, ref, "returned", {"spec": dict(b2, nslice=1, cores=1), "mode": "free"}))
+        if ref["outcome"] == "returned":
+            b1 = np.load(os.path.join(ref["dir"], "bkg.npy")).astype(float)
+            r1 = np.load(os.path.join(ref["dir"], "rms.npy")).astype(float)
+            for nsl in ((4,) if quick else (2, 4, 6)):
+                res = run_bane(ctx, "sens%s%d" % (tag, nsl), dict(b2, nslice=nsl))
+                runs.append(run_record("sens-%s/nslice=%d" % (tag, nsl), b2, res, "returned", {"spec": dict(b2, nslice=nsl), "mode": "free"}))
+                if res["outcome"] == "returned":
+                    b = np.load(os.path.join(res["dir"], "bkg.npy")).astype(float)
+                    r = np.load(os.path.join(res["dir"], "rms.npy")).astype(float)
+                    noise = np.maximum(r1, 1e-6)
+                    sens.append({"id": "sens-%s/1-vs-%d" % (tag, nsl), "kind": "sens", "nslice": nsl,
+                                 "dbkg_milli": int(min(2 ** 30, round(float(np.nanmax(np.abs(b - b1) / noise)) * 1000))),
+                                 "drms_milli": int(min(2 ** 30, round(float(np.nanmax(np.abs(r - r1) / noise)) * 1000)))})
+                shutil.rmtree(res["dir"], ignore_errors=True)
+        shutil.rmtree(ref["dir"], ignore_errors=True)
     pool.shutdown()
 
     # ---- verdicts (TLC) --------------------------------------------------------------
@@ -438,6 +461,7 @@ def run(ctx):
     ctx.cov["rule"] = ("real filter_image executions: forced schedules from TLC -simulate behaviours of MC_BaneSched, free runs over "
                        "(rows, grid, cores, stripes), one injected fault per (stripe, phase); distinct = distinct (configuration, schedule/fault)")
     ctx.cov["forced_schedules"] = len(scheds)
+    ctx.assumptions.append("stripe-count sensitivity is judged on backgrounds that change by at most 0.4 sigma per pixel row")
     ctx.cov["fault_runs"] = len(faults)
     ctx.cov["free_runs"] = len(free) + 3
     ctx.cov["hook_traces_validated"] = len(traces)
